@@ -263,6 +263,34 @@ def run(ctx):
             if bad:
                 res.violation("C06:search-differs:" + ",".join(sorted(bad)), "a search string reaches the handler differently through different protocols",
                               {"search": w}, observed=bad, required=w, replay={"search": w})
+        # Gemini's three-step search (link with the query prefix -> prompt -> '?words' -> redirect -> the search itself) hands the
+        # handler the selector and words that Gopher's one-step 'selector<TAB>words' hands it -- also for selectors that hold
+        # '?', '#', '%XX' or blanks
+        import urllib.parse as _up
+        qp = "/GEMINI-QUERY"
+        for sel_ in ("/s", "/cgi/find?db=music", "/s#frag", "/s%41x", "/s x/y", "/caf\xe9/s", "/a&b=c"):
+            for words in ("miles davis", "a&b=c", "100%", "x?y#z"):
+                g_sel, g_sr, _r = pyg.parse_via_recorder((sel_ + "\t" + words + "\r\n").encode("utf-8", "surrogateescape"), rc, False)
+                quoted = _up.quote(sel_.encode("utf-8", "surrogateescape"))
+                r1 = pyg.request(("gemini://h" + qp + quoted + "\r\n").encode(), rc, tls=True)
+                r2 = pyg.request(("gemini://h" + qp + quoted + "?" + _up.quote(words) + "\r\n").encode(), rc, tls=True)
+                res.evaluations += 3
+                res.nontrivial.add(("gemini-flow", sel_, words))
+                inp_ = {"selector": sel_, "search": words}
+                if not (r1.out or b"").startswith(b"10 "):
+                    res.violation("C06:gemini-search-flow:prompt", "the query-prefix link of a search item does not prompt for input", inp_, observed=(r1.out or b"")[:80],
+                                  required="10 <prompt>", replay={"search": words, "gemini_flow": sel_})
+                    continue
+                m_ = re.match(rb"30 ([^\r\n]*)\r\n", r2.out or b"")
+                if not m_:
+                    res.violation("C06:gemini-search-flow:redirect", "a submitted query is not redirected to the search item", inp_, observed=(r2.out or b"")[:80],
+                                  required="30 <selector>?<query>", replay={"search": words, "gemini_flow": sel_})
+                    continue
+                s3, sr3, _r3 = pyg.parse_via_recorder(b"gemini://h" + m_.group(1) + b"\r\n", rc, True)
+                if (s3, sr3) != (g_sel, g_sr):
+                    res.violation("C06:gemini-search-flow:differs", "a search made through Gemini's prompt-and-redirect reaches the handler with another selector or string than through Gopher",
+                                  inp_, observed={"redirect": m_.group(1)[:120], "selector": s3, "search": sr3}, required={"selector": g_sel, "search": g_sr},
+                                  replay={"search": words, "gemini_flow": sel_})
         corr_parse.run(ctx, res, ctx.n(1500, 30000), "C06")
         res.sample({"dir": "/mixed", "views": PROTOS})
         res.sample({"search": "a&b=c", "mechanisms": ["tab field", "searchrequest=", "URL query", "request body"]})
@@ -274,6 +302,9 @@ def run(ctx):
 
 def replay(data):
     rp = data["violation"]["replay"]
+    if "gemini_flow" in rp:
+        print("Gemini search flow of harness/props/c06.py for selector", rp["gemini_flow"], "and words", rp["search"])
+        return 0
     if "search" in rp and "cuts" in rp:
         rc = pyg.recorder_config()
         rq = reqs.build(rp["protocol"], "/s", search=rp["search"])
